@@ -195,7 +195,117 @@ Section DeadEnd.
       pose proof (Hnil KBoth Kb) as Hb0. cbn [next_state_primitive] in Hb0. rewrite Hb0 in Hlb. inversion Hlb; subst lb. destruct (Hbe eq_refl) as [Hroom|H2]; [|lia].
       pose proof (inv_len_u _ _ _ _ _ _ _ I). pose proof (inv_nw _ _ _ _ _ _ _ I). lia.
   Qed.
+
+  (* no cut kind allowed: the pass stops at a gate whose two subcircuits together exceed W *)
+  Lemma dead_end_nocut M s pl :
+    gl = false -> wl = false ->
+    Inv names W gates (search_actions gl wl) M s pl ->
+    goal_state {| fa_gates := gates; fa_actions := search_actions gl wl; fa_W := W |} s = false ->
+    next_states {| fa_gates := gates; fa_actions := search_actions gl wl; fa_W := W |} s = Val [] ->
+    exists g, nth_error gates (level s) = Some g /\
+      find_qubit_root s (q1_of g) <> find_qubit_root s (q2_of g) /\
+      W < width_at s (find_qubit_root s (q1_of g)) + width_at s (find_qubit_root s (q2_of g)) /\
+      (forall kd, In kd pl -> kd = Leave).
+  Proof.
+    intros Egl Ewl I Hgoal Hns. unfold goal_state in Hgoal. cbn [fa_gates] in Hgoal. apply Nat.leb_gt in Hgoal.
+    unfold next_states in Hns. cbn [fa_gates fa_actions fa_W] in Hns.
+    destruct (nth_error gates (level s)) as [g|] eqn:Eg; [|discriminate].
+    assert (Hg : In g gates) by (eapply nth_error_In; eauto).
+    pose proof (Hgates g Hg) as Gwf. destruct Gwf as (GL & _). rewrite GL, Nat.eqb_refl in Hns.
+    pose proof (next_states_over_nil _ _ _ _ Hns) as Hnil.
+    pose proof (inv_u _ _ _ _ _ _ _ I) as IU.
+    destruct (apply_gate_ok names W HW Hnames s _ _ g IU (Hgates g Hg)) as (la & Hla & _ & Hae).
+    assert (Ka : In KApply (search_actions gl wl)) by (destruct gl, wl; simpl; auto).
+    pose proof (Hnil KApply Ka) as Ha0. cbn [next_state_primitive] in Ha0. rewrite Ha0 in Hla. inversion Hla; subst la.
+    destruct (Hae eq_refl) as [Nr Hor].
+    assert (Hall : forall kd, In kd pl -> kd = Leave).
+    { intros kd Hkd. pose proof (proj1 (Forall_forall _ _) (inv_kinds _ _ _ _ _ _ _ I) kd Hkd) as (k & Hk & Ek).
+      subst gl wl. simpl in Hk. destruct Hk as [<-|[]]. now rewrite <- Ek. }
+    exists g. split; [reflexivity|]. split; [exact Nr|]. split; [|exact Hall].
+    destruct Hor as [Hw|(a & c & Hin & _)]; [exact Hw|].
+    rewrite (inv_nm _ _ _ _ _ _ _ I Hall) in Hin. destruct Hin.
+  Qed.
 End DeadEnd.
+
+(* ---------------- an ApplyGate refused for width: the two subcircuits it would join are one component ---------------- *)
+Lemma NoDup_app_my {A} (l1 l2 : list A) :
+  NoDup l1 -> NoDup l2 -> (forall x, In x l1 -> In x l2 -> False) -> NoDup (l1 ++ l2).
+Proof.
+  induction l1 as [|a l1 IH]; intros N1 N2 D; simpl; [exact N2|].
+  inversion N1; subst. constructor.
+  - intros H. apply in_app_or in H as [H|H]; [contradiction|]. apply (D a); [now left|exact H].
+  - apply IH; auto. intros x Hx. apply D. now right.
+Qed.
+
+Lemma class_list_length u r n :
+  length (filter (fun a => Nat.eqb (find u a) r) (seq 0 n)) = class_count u r n.
+Proof.
+  induction n as [|n IH]; [reflexivity|].
+  rewrite seq_S, filter_app, app_length, IH. simpl. destruct (Nat.eqb (find u n) r); simpl; lia.
+Qed.
+
+Lemma NoDup_map_on {A B} (f : A -> B) (l : list A) :
+  NoDup l -> (forall x y, In x l -> In y l -> f x = f y -> x = y) -> NoDup (map f l).
+Proof.
+  induction l as [|a l IH]; intros ND Hinj; simpl; constructor.
+  - inversion ND as [|? ? Hn _]; subst. intros Hin. apply in_map_iff in Hin as (y & Ey & Hy).
+    assert (y = a) by (apply Hinj; [now right|now left|exact Ey]). subst. contradiction.
+  - inversion ND; subst. apply IH; auto. intros x y Hx Hy. apply Hinj; now right.
+Qed.
+
+Lemma big_component names W s cur E g :
+  1 <= W -> NoDup names -> InvU names W s cur E -> gate_wf names g ->
+  let r1 := find_qubit_root s (q1_of g) in let r2 := find_qubit_root s (q2_of g) in
+  r1 <> r2 ->
+  exists S : list node, NoDup S /\ length S = width_at s r1 + width_at s r2 /\
+    forall a b, In a S -> In b S -> conn (E ++ [aedge cur (Q1 names g) (Q2 names g)]) a b.
+Proof.
+  intros HW Hnames I G r1 r2 Nr.
+  destruct (wires_of_gate names W Hnames _ _ _ _ I G) as (Hw1 & Hw2 & Nw).
+  set (w1 := get_wire s (q1_of g)) in *. set (w2 := get_wire s (q2_of g)) in *.
+  destruct (root_facts names W HW _ _ _ _ I Hw1) as (L1 & N1 & B1 & R1 & F1).
+  destruct (root_facts names W HW _ _ _ _ I Hw2) as (L2 & N2 & B2 & R2 & F2).
+  change (find (uptree s) w1) with r1 in *. change (find (uptree s) w2) with r2 in *.
+  pose proof (iu_wf _ _ _ _ _ I) as WF. pose proof (iu_nw_hi _ _ _ _ _ I) as Hhi.
+  destruct (iu_sim _ _ _ _ _ I) as [phi P].
+  destruct G as (GL & GN & G1 & G2).
+  assert (P1 : phi w1 = (Q1 names g, cur (Q1 names g))) by (apply (sp_wm _ _ _ _ _ P); exact G1).
+  assert (P2 : phi w2 = (Q2 names g, cur (Q2 names g))) by (apply (sp_wm _ _ _ _ _ P); exact G2).
+  set (n := length (uptree s)).
+  set (cls := fun r => filter (fun a => Nat.eqb (find (uptree s) a) r) (seq 0 n)).
+  assert (Hcls : forall r a, In a (cls r) <-> a < n /\ find (uptree s) a = r).
+  { intros r a. unfold cls. rewrite filter_In, in_seq, Nat.eqb_eq. lia. }
+  assert (Hlt : forall r a, r < num_wires s -> In a (cls r) -> a < num_wires s).
+  { intros r a Hr Ha. apply Hcls in Ha as [Han Haf]. destruct (Nat.lt_ge_cases a (num_wires s)) as [|Hge]; [assumption|].
+    assert (Ra : parent (uptree s) a = a) by (apply (iu_fresh _ _ _ _ _ I); exact Hge).
+    rewrite (find_root_id _ _ WF Ra) in Haf. lia. }
+  exists (map phi (cls r1 ++ cls r2)). split; [|split].
+  - apply NoDup_map_on.
+    + apply NoDup_app_my.
+      * apply NoDup_filter, seq_NoDup.
+      * apply NoDup_filter, seq_NoDup.
+      * intros a Ha1 Ha2. apply Hcls in Ha1 as [_ E1]. apply Hcls in Ha2 as [_ E2]. congruence.
+    + intros x y Hx Hy Exy.
+      assert (Hx' : x < num_wires s) by (apply in_app_or in Hx as [Hx|Hx]; [apply (Hlt r1)|apply (Hlt r2)]; auto).
+      assert (Hy' : y < num_wires s) by (apply in_app_or in Hy as [Hy|Hy]; [apply (Hlt r1)|apply (Hlt r2)]; auto).
+      apply (sp_inj _ _ _ _ _ P); auto.
+  - rewrite map_length, app_length. unfold cls. rewrite !class_list_length.
+    destruct (iu_width _ _ _ _ _ I r1 B1 R1) as [-> _]. destruct (iu_width _ _ _ _ _ I r2 B2 R2) as [-> _]. reflexivity.
+  - assert (EDGE : aedge cur (Q1 names g) (Q2 names g) = (phi w1, phi w2)) by (unfold aedge; now rewrite P1, P2).
+    rewrite EDGE.
+    assert (M : forall x y, conn E x y -> conn (E ++ [(phi w1, phi w2)]) x y)
+      by (intros x y; apply conn_mono; intros e He; apply in_or_app; now left).
+    assert (S12 : conn (E ++ [(phi w1, phi w2)]) (phi w1) (phi w2))
+      by (apply rst_step, in_or_app; right; left; reflexivity).
+    assert (To1 : forall a, In a (cls r1) -> conn (E ++ [(phi w1, phi w2)]) (phi a) (phi w1)).
+    { intros a Ha. apply M. apply (sp_conn _ _ _ _ _ P); auto; [apply (Hlt r1); auto|]. apply Hcls in Ha as [_ Ea]. exact Ea. }
+    assert (To2 : forall a, In a (cls r2) -> conn (E ++ [(phi w1, phi w2)]) (phi a) (phi w1)).
+    { intros a Ha. eapply conn_trans; [|apply conn_sym; exact S12]. apply M.
+      apply conn_sym. apply (sp_conn _ _ _ _ _ P); auto; [apply (Hlt r2); auto|]. apply Hcls in Ha as [_ Ea]. symmetry; exact Ea. }
+    assert (To : forall x, In x (map phi (cls r1 ++ cls r2)) -> conn (E ++ [(phi w1, phi w2)]) x (phi w1)).
+    { intros x Hx. apply in_map_iff in Hx as (a & <- & Ha). apply in_app_or in Ha as [Ha|Ha]; auto. }
+    intros a b Ha Hb. eapply conn_trans; [apply To; exact Ha|]. apply conn_sym. apply To; exact Hb.
+Qed.
 
 (* ---------------- with W = 1 and no gate cuts, nothing is feasible once there is a two-qubit gate ---------------- *)
 Lemma seg_edges_app c1 : forall c2 cur,
@@ -222,16 +332,42 @@ Proof.
     + exists x, y. apply in_or_app. now right.
 Qed.
 
+Lemma all_leave_repeat pl : (forall kd, In kd pl -> kd = Leave) -> pl = repeat Leave (length pl).
+Proof.
+  induction pl as [|k r IH]; intros H; [reflexivity|]. simpl. rewrite (H k (or_introl eq_refl)). f_equal.
+  apply IH. intros kd Hkd. apply H. now right.
+Qed.
+
+Lemma combine_app_skipn {A B} (l : list A) (p1 p2 : list B) :
+  length p1 <= length l -> combine l (p1 ++ p2) = combine l p1 ++ combine (skipn (length p1) l) p2.
+Proof.
+  revert l; induction p1 as [|b p1 IH]; intros l H; [destruct l; reflexivity|].
+  destruct l as [|a l]; simpl in H; [lia|]. simpl. f_equal. apply IH. lia.
+Qed.
+
+Lemma arun_incl names gates pl1 pl2 : length pl1 <= length gates ->
+  incl (snd (arun names (combine gates pl1) (cur0, []))) (snd (arun names (combine gates (pl1 ++ pl2)) (cur0, []))).
+Proof.
+  intros H. rewrite (combine_app_skipn gates pl1 pl2 H), arun_app.
+  destruct (arun names (combine gates pl1) (cur0, [])) as [cur E] eqn:Ea. rewrite arun_acc. cbn [snd].
+  intros x Hx. apply in_or_app. now left.
+Qed.
+
+Lemma pfun_all_leave P k : (forall gk, In gk P -> snd gk = Leave) -> pfun P k = Leave.
+Proof.
+  intros H. unfold pfun. destruct (List.find _ P) as [gk|] eqn:E; [|reflexivity].
+  apply find_some in E as [E _]. now apply H.
+Qed.
+
 Theorem fails_only_if_infeasible fuel i :
   find_cuts_full fuel i = Ref ->
   let t := fi_gtab i in let c := fi_circ i in
   circ_wf c -> circ_plain c ->
   (forall x, In x c -> is_multi x = true -> kappa_of t x <> None) ->
   fi_ncl i = 0 -> 1 <= fi_W i -> settings_ok i = true ->
-  (fi_gate_lo i = true \/ fi_wire_lo i = true) ->
   forall p, plan_permitted t (fi_gate_lo i) (fi_wire_lo i) c p -> ~ feasible (fi_W i) (render t p c).
 Proof.
-  intros H t c WFc Hplain Hsup Hncl HW Hset Hkinds p Hperm Hfeas.
+  intros H t c WFc Hplain Hsup Hncl HW Hset p Hperm Hfeas.
   pose proof (find_cuts_ref_greedy fuel i H WFc HW Hset Hncl) as Hgr. fold t c in Hgr.
   set (names := names_of (fi_nq i) t c) in *. set (gates := gates_of (fi_nq i) t c) in *.
   set (acts := search_actions (fi_gate_lo i) (fi_wire_lo i)) in *.
@@ -248,7 +384,55 @@ Proof.
     as (s' & pl & I & Hgoal & Hdead).
   rewrite (max_wire_cuts_two names gates Hgwf) in I.
   destruct (dead_end names (fi_W i) HW NDn gates Hgwf Hgam (fi_gate_lo i) (fi_wire_lo i) _ s' pl I eq_refl Hgoal Hdead) as [Hgl Hwl].
-  destruct Hkinds as [Hk|Hk]; [congruence|]. specialize (Hwl Hk).
+  destruct (fi_wire_lo i) eqn:Ewl.
+  2:{ (* no cut kind allowed: the only plan leaves every gate; the refused gate joins more than W segments *)
+    destruct (dead_end_nocut names (fi_W i) HW NDn gates Hgwf (fi_gate_lo i) false _ s' pl Hgl eq_refl I Hgoal Hdead)
+      as (g & Eg & Nr & Hbig & Hall).
+    assert (Hg : In g gates) by (eapply nth_error_In; eauto).
+    pose proof (inv_len _ _ _ _ _ _ _ I) as Llen.
+    assert (Hlvl : level s' < length gates) by (apply nth_error_Some; congruence).
+    destruct (big_component names (fi_W i) s' _ _ g HW NDn (inv_u _ _ _ _ _ _ _ I) (Hgwf g Hg) Nr) as (Sg & NDS & LS & CS).
+    (* the edges seen so far plus this gate's edge are edges of the whole circuit's segment graph *)
+    set (G := length gates) in *.
+    assert (Epl : pl = repeat Leave (level s')) by (rewrite <- Llen; apply all_leave_repeat; exact Hall).
+    set (plF := repeat Leave G).
+    assert (EplF : plF = (pl ++ [Leave]) ++ repeat Leave (G - S (level s'))).
+    { unfold plF. rewrite Epl at 1. change [Leave] with (repeat Leave 1). rewrite <- !repeat_app. f_equal. lia. }
+    set (PF := combine gates plF).
+    assert (HginstP : map ginst PF = map g_inst gates).
+    { unfold ginst. rewrite <- map_map. unfold PF. rewrite map_fst_combine by (unfold plF; rewrite repeat_length; reflexivity). reflexivity. }
+    assert (HinP : forall g0 kd, In (g0, kd) PF -> In g0 gates /\ kd = Leave).
+    { intros g0 kd Hin. split; [eapply in_combine_l; exact Hin|].
+      apply in_combine_r in Hin. unfold plF in Hin. now apply repeat_spec in Hin. }
+    assert (Hp : forall j, 0 <= j -> p j = pfun PF j).
+    { intros j _. rewrite pfun_all_leave by (intros [g0 kd] Hin; simpl; apply (HinP g0 kd Hin)).
+      destruct (p j) eqn:Ep; [reflexivity| | | |]; exfalso;
+        (destruct (Hperm j) as (x' & _ & _ & _ & Hk'); [congruence|]; rewrite Ep in Hk'; cbn beta iota in Hk'; rewrite ?Hgl, ?Ewl in Hk';
+         first [discriminate Hk' | destruct Hk' as [Hk' _]; discriminate Hk']). }
+    assert (Hseg : segment_graph (render t p c) = snd (arun names PF (cur0, []))).
+    { unfold segment_graph, render. rewrite (render_from_ext t p (pfun PF) 0 c Hp).
+      apply (seg_render t names c c 0 PF [] cur0); auto.
+      - rewrite HginstP. exact Hincg.
+      - apply Forall_forall. intros [g0 kd] Hin. destruct (HinP g0 kd Hin) as [Hg0 ->].
+        destruct (Hgspec g0 Hg0) as (x & Hx & Hm & Hq & _ & _).
+        destruct (Hgwf g0 Hg0) as (GL & _).
+        exists x. unfold ginst; cbn [fst snd]. split; [exact Hx|]. split; [exact Hm|].
+        split; [apply Hplain; eapply nth_error_In; exact Hx|]. split; [|discriminate].
+        rewrite Hq. unfold Q1, Q2, name, q1_of, q2_of, nm.
+        destruct (g_qubits g0) as [|a [|b [|? ?]]]; simpl in GL; try lia. reflexivity.
+      - intros j x _ Hx Hm. rewrite HginstP. destruct (Hgall j x Hx Hm) as (g0 & Hg0 & <-). now apply in_map. }
+    assert (Estep : snd (arun names (combine gates (pl ++ [Leave])) (cur0, [])) =
+                    snd (abs_of names gates pl) ++ [aedge (fst (abs_of names gates pl)) (Q1 names g) (Q2 names g)]).
+    { rewrite (combine_snoc gates pl Leave g) by (rewrite Llen; exact Hlvl).
+      rewrite Llen, (nth_error_nth _ _ g Eg), arun_app. unfold abs_of.
+      destruct (arun names (combine gates pl) (cur0, [])) as [cur E]. reflexivity. }
+    assert (Hincl : incl (snd (abs_of names gates pl) ++ [aedge (fst (abs_of names gates pl)) (Q1 names g) (Q2 names g)])
+                         (segment_graph (render t p c))).
+    { rewrite Hseg, <- Estep. unfold PF. rewrite EplF. apply arun_incl. rewrite app_length, Llen. simpl. lia. }
+    assert (L : length Sg <= fi_W i).
+    { apply Hfeas; [exact NDS|]. intros a b Ha Hb. eapply conn_mono; [exact Hincl|]. apply CS; auto. }
+    lia. }
+  specialize (Hwl eq_refl).
   (* the gate at which the greedy pass stopped *)
   unfold goal_state in Hgoal. cbn [fa fa_gates] in Hgoal. apply Nat.leb_gt in Hgoal.
   destruct (nth_error gates (level s')) as [g|] eqn:Eg; [|apply nth_error_None in Eg; lia].
